@@ -256,7 +256,7 @@ func zzCheckAllT(db *DB, path string, c zzCfg, id string, trigger bool, key stri
 	if c.noFLSync {
 		extra = zzFreeAndPending(db)
 	}
-	zzAccountKnown(im, id, extra, trigger, key)
+	zzAccountKnown2(im, id, extra, c.noFLSync, trigger, key)
 	if !c.noFLSync && im.hasFL {
 		mem := zzFreeAndPending(db)
 		zz.Assert(len(mem) == len(im.free), id+"/freelist-page-matches-memory-count")
